@@ -42,11 +42,23 @@ class Lib:
                 return P.ex(a0)
             if op == '=':
                 return '(%s = %s)' % (P.ex(a0), P.ex(args[1]))
+        if c0 == 'chrono' or (len(args) == 2 and self.tr.category(P.ty(args[1])) == 'chrono'):
+            return self.chrono_op(P, n, op, args)
+        if c0 == 'atomic':
+            if op == '=': return '(%s = %s)' % (P.ex(a0), P.ex(args[1]))
         if c0 in ('scalar', 'enum') and len(args) == 2 and op in ('<', '>', '<=', '>=', '==', '!=', '+', '-', '|', '&', '^', '+=', '-=', '|=', '&=', '='):
             # class types that the table maps to scalars (std::fpos, std::ios_base::openmode, ...)
             return '(%s %s %s)' % (P.ex(a0), op, P.ex(args[1]))
         if c0 in ('scalar', 'enum') and len(args) == 1 and op in ('~', '-', '!'):
             return '(%s%s)' % (op, P.paren(P.ex(a0)))
+        if c0 == 'umapiter':
+            if op in ('==', '!='): return '(%s %s %s)' % (P.ex(a0), op, P.ex(args[1]))
+            if op == '->': return P.ex(a0)
+            if op == '*' and len(args) == 1: return '(*%s)' % P.paren(P.ex(a0))
+            if op == '=': return '(%s = %s)' % (P.ex(a0), P.ex(args[1]))
+        if c0 == 'umap':
+            m = self.tr.mangle_t(t0.strip_ref().args[1])
+            if op == '[]': return '(*umap_%s_index(%s, %s))' % (m, P.addr(a0), self.as_sv(P, args[1]))
         if c0 == 'riter':
             # std::reverse_iterator<T*>: {T *base}; *it == *(base - 1)
             if op in ('==', '!='): return '(%s.base %s %s.base)' % (P.paren(P.ex(a0)), op, P.paren(P.ex(args[1])))
@@ -111,6 +123,74 @@ class Lib:
                 return '(*strbuf_put_num(%s, (double)%s))' % (P.addr(a0), P.ex(args[1]))
         raise Unsupported('%s: no library mapping for %s on %r (category %s)' % (P.cname, name, t0, c0))
 
+    def chrono_scaled(self, P, a, den):
+        """expression a (chrono or plain number) expressed in ticks of 1/den seconds"""
+        da = self.tr.chrono_den(P.ty(a))
+        e = P.ex(a)
+        if da is None or da == den: return e
+        if den % da == 0: return '(%s * %dL)' % (P.paren(e), den // da)
+        if da % den == 0: return '(%s / %dL)' % (P.paren(e), da // den)
+        raise Unsupported('%s: chrono conversion %d -> %d' % (P.cname, da, den))
+
+    def chrono_op(self, P, n, op, args):
+        dens = [d for d in (self.tr.chrono_den(P.ty(a)) for a in args) if d is not None]
+        if op in ('<', '>', '<=', '>=', '==', '!=') and len(args) == 2:
+            den = max(dens)
+            return '(%s %s %s)' % (self.chrono_scaled(P, args[0], den), op, self.chrono_scaled(P, args[1], den))
+        if op in ('+', '-') and len(args) == 2:
+            den = self.tr.chrono_den(P.ty(n)) or max(dens)
+            return '(%s %s %s)' % (self.chrono_scaled(P, args[0], den), op, self.chrono_scaled(P, args[1], den))
+        if op in ('=', '+=', '-=') and len(args) == 2:
+            den = self.tr.chrono_den(P.ty(args[0]))
+            return '(%s %s %s)' % (P.ex(args[0]), op, self.chrono_scaled(P, args[1], den))
+        raise Unsupported('%s: chrono operator %s' % (P.cname, op))
+
+    def emplace_back(self, P, n, t, m, vaddr, A):
+        """v.emplace_back(args...): construct the element in place in the next slot (capacity from the precondition) with
+        the constructor whose parameter count matches; yields the new element (C++17 returns a reference)"""
+        tr = self.tr
+        q = self.elem(t).name
+        cands = [c for c in tr.fn_nodes if c['kind'] == 'CXXConstructorDecl' and tr.fn_class_qname(c) == q and len(tr.fn_params(c)) == len(A) and not c.get('isImplicit')]
+        # exclude copy/move constructors when one argument of another type is given
+        if len(A) == 1:
+            cands = [c for c in cands if tr.tparse(tr.fn_params(c)[0]['type']).strip_ref().name != q]
+        if len(cands) != 1:
+            raise Unsupported('%s: emplace_back on %s with %d args: %d candidate constructors' % (P.cname, q, len(A), len(cands)))
+        ctor = cands[0]
+        cn = tr._callee_cname(P, ctor)
+        args = P.call_args(ctor, A)
+        return '(*(vec_%s_emplace_slot(%s), %s(vec_%s_back(%s)%s), vec_%s_back(%s)))' % (m, vaddr, cn, m, vaddr, ''.join(', ' + a for a in args), m, vaddr)
+
+    def find_if(self, P, n, args):
+        """std::find_if(first, last, capture-less lambda) over pointers or reverse iterators: a generated helper with a loop
+        contract (so that it can sit inside a loop that has a contract)"""
+        tr = self.tr
+        t = P.ty(args[0]); cat = tr.category(t)
+        pred = P.ex(args[2])
+        ity = tr.ctype_t(t)
+        k = len(tr.generated_helpers)
+        name = '%s__find_if%d' % (P.cname, k)
+        if cat == 'riter':
+            body = ('static inline %s %s(%s b, %s e) {\n'
+                    '  while (b.base != e.base)\n'
+                    '    __CPROVER_assigns(b.base)\n'
+                    '    __CPROVER_loop_invariant(__CPROVER_same_object(b.base, e.base) && __CPROVER_POINTER_OFFSET(b.base) >= __CPROVER_POINTER_OFFSET(e.base) && (__CPROVER_POINTER_OFFSET(b.base) - __CPROVER_POINTER_OFFSET(e.base)) %% sizeof(*b.base) == 0)\n'
+                    '    __CPROVER_decreases(__CPROVER_POINTER_OFFSET(b.base) - __CPROVER_POINTER_OFFSET(e.base))\n'
+                    '  { if (%s(b.base - 1)) return b; b.base = b.base - 1; }\n'
+                    '  return e; }') % (ity, name, ity, ity, pred)
+        elif cat in ('iter', 'ptr'):
+            body = ('static inline %s %s(%s b, %s e) {\n'
+                    '  while (b != e)\n'
+                    '    __CPROVER_assigns(b)\n'
+                    '    __CPROVER_loop_invariant(__CPROVER_same_object(b, e) && __CPROVER_POINTER_OFFSET(b) <= __CPROVER_POINTER_OFFSET(e) && (__CPROVER_POINTER_OFFSET(e) - __CPROVER_POINTER_OFFSET(b)) %% sizeof(*b) == 0)\n'
+                    '    __CPROVER_decreases(__CPROVER_POINTER_OFFSET(e) - __CPROVER_POINTER_OFFSET(b))\n'
+                    '  { if (%s(b)) return b; b = b + 1; }\n'
+                    '  return e; }') % (ity, name, ity, ity, pred)
+        else:
+            raise Unsupported('%s: find_if over %r' % (P.cname, t))
+        tr.generated_helpers.append(body)
+        return '%s(%s, %s)' % (name, P.ex(args[0]), P.ex(args[1]))
+
     def as_sv(self, P, a):
         """print expression a (str, sv, const char*, char) as an sv value"""
         s = P.skip(a)
@@ -145,6 +225,27 @@ class Lib:
         A = [a for a in args]
         if cat == 'scalar' and name.startswith('operator '):
             return objval()     # conversion operator of a class the table maps to a scalar (std::fpos -> streamoff)
+        if cat == 'chrono':
+            if name == 'count': return objval()
+            if name in ('zero', 'min') and not A: return '0L'
+            if name == 'time_since_epoch': return objval()
+        if cat == 'atomic':
+            if name.startswith('operator ') or name == 'load': return objval()
+            if name == 'store': return '(%s = %s)' % (objval(), P.ex(A[0]))
+            if name in ('compare_exchange_weak', 'compare_exchange_strong'):
+                self.tr.dropped.add('std::atomic compare_exchange: sequential model (weak may fail spuriously)')
+                return 'shim_cas_bool(%s, %s, %s, %d)' % (objaddr(), P.addr(A[0]), P.ex(A[1]), 1 if 'weak' in name else 0)
+            if name == 'exchange': return 'shim_xchg_bool(%s, %s)' % (objaddr(), P.ex(A[0]))
+        if cat == 'umap':
+            m = self.tr.mangle_t(t.strip_ref().args[1])
+            if name == 'find' and len(A) == 1: return 'umap_%s_find(%s, %s)' % (m, objaddr(), self.as_sv(P, A[0]))
+            if name in ('end', 'cend') and not A: return '((struct umap_%s_pair *)0)' % m
+            if name == 'at' and len(A) == 1:
+                P.note_throw(); return '(*umap_%s_at(%s, %s))' % (m, objaddr(), self.as_sv(P, A[0]))
+            if name == 'size': return '%s.size' % P.paren(objval())
+            if name == 'empty': return '(%s.size == 0)' % P.paren(objval())
+            if name == 'erase' and len(A) == 1 and self.tr.category(P.ty(A[0])) in ('str', 'sv', 'ptr'): return 'umap_%s_erase(%s, %s)' % (m, objaddr(), self.as_sv(P, A[0]))
+            if name == 'count' and len(A) == 1: return '(umap_%s_find(%s, %s) != 0)' % (m, objaddr(), self.as_sv(P, A[0]))
         if cat == 'il':
             if name == 'begin': return '%s.data' % P.paren(objval())
             if name == 'end': return '(%s.data + %s.size)' % (P.paren(objval()), P.paren(objval()))
@@ -167,12 +268,16 @@ class Lib:
                 P.note_throw(); return '(*vec_%s_at_checked(%s, %s))' % (m, objaddr(), P.ex(A[0]))
             if name in ('push_back', 'emplace_back') and len(A) == 1:
                 return 'vec_%s_push_back(%s, %s)' % (m, objaddr(), P.ex(A[0]))
+            if name == 'emplace_back' and len(A) >= 1 and self.tr.category(self.elem(t)) == 'record':
+                return self.emplace_back(P, n, t, m, objaddr(), A)
             if name == 'pop_back': return 'vec_%s_pop_back(%s)' % (m, objaddr())
             if name == 'clear': return 'vec_%s_clear(%s)' % (m, objaddr())
             if name == 'reserve':
                 return 'vec_%s_reserve(%s, %s)' % (m, objaddr(), P.ex(A[0]))
             if name == 'resize' and len(A) == 1:
                 return 'vec_%s_resize(%s, %s)' % (m, objaddr(), P.ex(A[0]))
+            if name == 'erase' and len(A) == 1:
+                return 'vec_%s_erase(%s, %s)' % (m, objaddr(), P.ex(A[0]))
             if name == 'operator=' and len(A) == 1:
                 self.tr.dropped.add('vector assignment is a shallow struct copy in the C model')
                 return '(%s = %s)' % (objval(), P.ex(A[0]))
@@ -293,8 +398,22 @@ class Lib:
         if cat == 'opt':
             if not A: return '((%s){0})' % cty
             return self.to_opt(P, t, A[0])
+        if cat == 'umap':
+            if not A: return '((%s){0})' % cty
+            if same() and not P.is_glvalue(A[0]): return P.ex(A[0])
+        if cat == 'umapiter':
+            if len(A) == 1: return P.ex(A[0])
+            if not A: return '((%s)0)' % cty
         if cat == 'vec':
             m = self.M(t)
+            if len(A) == 2 and tr.category(P.ty(A[0])) in ('riter', 'iter', 'ptr') and tr.category(P.ty(A[1])) in ('riter', 'iter', 'ptr'):
+                # range constructor: a new vector of the right size whose storage is an opaque (undereferenceable) object
+                tr.dropped.add('vector range construction: element values are opaque (the storage pointer is not dereferenceable)')
+                if tr.category(P.ty(A[0])) == 'riter':
+                    n_ = '(unsigned long)(%s.base - %s.base)' % (P.paren(P.ex(A[0])), P.paren(P.ex(A[1])))
+                else:
+                    n_ = '(unsigned long)(%s - %s)' % (P.paren(P.ex(A[1])), P.paren(P.ex(A[0])))
+                return '((%s){(%s *)shim_opaque_ptr(), %s, %s})' % (cty, tr.ctype_t(self.elem(t)), n_, n_)
             if not A: return '((%s){0, 0, 0})' % cty
             if same() and not P.is_glvalue(A[0]): return P.ex(A[0])
             if same():
@@ -308,6 +427,12 @@ class Lib:
             if len(A) == 1: return '((%s){%s})' % (cty, P.ex(A[0]))
         if cat == 'nullopt':
             return '0'
+        if cat == 'chrono':
+            if not A: return '0L'
+            if len(A) == 1: return self.chrono_scaled(P, A[0], tr.chrono_den(t))
+        if cat == 'atomic':
+            if not A: return '0'
+            if len(A) == 1: return P.ex(A[0])
         if cat in ('scalar', 'enum', 'ptr'):
             if not A: return '0'
             return P.ex(A[0])
@@ -362,12 +487,23 @@ class Lib:
             return 'shim_count_char(%s, %s, %s)' % (P.ex(args[0]), P.ex(args[1]), P.ex(args[2]))
         if name == 'transform' and len(args) == 4 and self.tr.category(P.ty(args[0])) in ('iter', 'ptr'):
             return 'shim_transform_char(%s, %s, %s, %s)' % tuple(P.ex(a) for a in args)
+        if name in ('zero',) and not args and self.tr.category(P.ty(n)) == 'chrono':
+            return '0L'
+        if name == 'now' and not args:
+            return 'shim_now_ns()'
+        if name == 'duration_cast' and len(args) == 1:
+            return self.chrono_scaled(P, args[0], self.tr.chrono_den(P.ty(n)))
         if name == 'to_string' and len(args) == 1 and self.tr.category(P.ty(args[0])) == 'scalar':
             return 'str_from_num((double)%s)' % P.ex(args[0])
         if name in ('move', 'forward'):
             return P.ex(args[0])
         if name in ('make_shared', 'make_unique'):
-            raise Unsupported('%s: make_shared needs construct-into-heap support' % P.cname)
+            # heap object whose fields are opaque: a non-null pointer that must not be dereferenced by the code under proof
+            self.tr.dropped.add('make_shared/make_unique: the new object is opaque (non-null, not dereferenceable); constructor arguments are not evaluated')
+            t = P.ty(n)
+            return '((%s)shim_opaque_ptr())' % self.tr.ctype_t(t)
+        if name == 'find_if' and len(args) == 3:
+            return self.find_if(P, n, args)
         if name in ('memcpy', 'memset', 'memcmp', 'strlen', 'abs', 'fabs', 'fabsf', 'floor', 'floorf', 'ceil', 'sqrt', 'round', 'roundf'):
             return '%s(%s)' % (name, ', '.join(P.ex(a) for a in args))
         if name in ('get') and len(args) == 1 and self.tr.category(P.ty(args[0])) == 'pair':
